@@ -175,6 +175,9 @@ class NestedQueryPostprocessingTransformation(QueryPostprocessingTransformation)
 
     def apply(self, rule: SigmaRule | SigmaCorrelationRule, query: Any) -> Any:
         super().apply(rule, query)
+        # The nested pipeline is only used for postprocessing and never reset by apply(): forget
+        # the items that were applied to the queries of previous rules.
+        self._nested_pipeline.applied_ids = set()
         query = self._nested_pipeline.postprocess_query(rule, query)
         if self._pipeline is not None:
             self._pipeline.applied_ids.update(self._nested_pipeline.applied_ids)
